@@ -11,7 +11,10 @@ import (
 	"go/constant"
 	"go/types"
 	"reflect"
+	"sort"
+	"strconv"
 	"strings"
+	"time"
 
 	"golang.org/x/tools/go/ssa"
 )
@@ -80,7 +83,7 @@ func searchShape(prog *Program, pkgPath, constName string, wantState bool) []*le
 		}
 	}
 	out = append(out, structural(constName+": a page holds only rows strictly older than the cursor (… OR sort_id < ?)", where, cursorOK, text))
-	out = append(out, structural(constName+": rows are filtered by the id pattern (id LIKE ?)", where, likeOK, text))
+	out = append(out, structural(constName+": rows are filtered by the id pattern (id LIKE ?, no ESCAPE clause: the front ends translate * to % and escape nothing)", where, likeOK, text))
 	if wantState {
 		out = append(out, structural(constName+": rows are filtered by the state mask (state & ? != 0)", where, stateOK, text))
 	}
@@ -357,7 +360,104 @@ func resetDefaultLemmas(prog *Program) []*lemmaQuery {
 	return out
 }
 
+// defaultTagLemmas: cmd/config.bind turns the `default:"..."` tag of every configuration field into the flag's
+// default with the parser of the field's type and DISCARDS the parse error (v, _ := time.ParseDuration(value)),
+// so a default that does not parse silently becomes zero (a duration written without a unit, "1000", is a zero
+// timeout). One structural obligation per tagged field of the repository's configuration structs: the default
+// parses with the parser bind uses for that type (both ends of a "lo:hi" range default).
+func defaultTagLemmas(prog *Program) []*lemmaQuery {
+	var out []*lemmaQuery
+	var paths []string
+	for path := range prog.ppkg {
+		if strings.HasPrefix(path, repoModule+"/") || path == repoModule {
+			paths = append(paths, path)
+		}
+	}
+	sort.Strings(paths)
+	for _, path := range paths {
+		pp := prog.ppkg[path]
+		if pp == nil || pp.Types == nil {
+			continue
+		}
+		scope := pp.Types.Scope()
+		for _, name := range scope.Names() {
+			tn, ok := scope.Lookup(name).(*types.TypeName)
+			if !ok {
+				continue
+			}
+			st, ok := tn.Type().Underlying().(*types.Struct)
+			if !ok {
+				continue
+			}
+			for i := 0; i < st.NumFields(); i++ {
+				tag := reflect.StructTag(st.Tag(i))
+				d, has := tag.Lookup("default")
+				if !has || tag.Get("flag") == "" {
+					continue
+				}
+				ft := st.Field(i).Type()
+				kind := ""
+				if named, ok := ft.(*types.Named); ok && named.Obj().Pkg() != nil && named.Obj().Pkg().Path() == "time" && named.Obj().Name() == "Duration" {
+					kind = "duration"
+				} else if b, ok := ft.Underlying().(*types.Basic); ok {
+					switch b.Kind() {
+					case types.Int:
+						kind = "int"
+					case types.Int64:
+						kind = "int64"
+					case types.Float64:
+						kind = "float64"
+					case types.Bool:
+						kind = "bool"
+					}
+				}
+				if kind == "" {
+					continue
+				}
+				parts := []string{d}
+				if strings.Contains(d, ":") && kind != "bool" {
+					parts = strings.SplitN(d, ":", 2)
+				}
+				good := true
+				for _, part := range parts {
+					var err error
+					switch kind {
+					case "duration":
+						_, err = time.ParseDuration(part)
+					case "int":
+						_, err = strconv.Atoi(part)
+					case "int64":
+						_, err = strconv.ParseInt(part, 10, 64)
+					case "float64":
+						_, err = strconv.ParseFloat(part, 64)
+					case "bool":
+						if part != "true" && part != "false" {
+							err = fmt.Errorf("not true/false")
+						}
+					}
+					if err != nil {
+						good = false
+					}
+				}
+				where := strings.TrimPrefix(path, repoModule+"/") + ":" + name + "." + st.Field(i).Name()
+				out = append(out, structural(fmt.Sprintf("configuration default of %s.%s (%s) parses with the parser cmd/config.bind uses for the field's type", name, st.Field(i).Name(), kind), where, good, st.Tag(i)))
+			}
+		}
+	}
+	return out
+}
+
 func extraObligations(prog *Program, prop, tier string) []*lemmaQuery {
+	out := extraObligations0(prog, prop, tier)
+	switch prop {
+	case "C13", "C08", "C12", "C18", "C19":
+		// timeouts, queue sizes and worker counts of the subsystems come from these defaults
+		out = append(out, defaultTagLemmas(prog)...)
+	}
+	return out
+}
+
+func extraObligations0(prog *Program, prop, tier string) []*lemmaQuery {
 	if prop == "C06" {
 		return resetDefaultLemmas(prog)
 	}
